@@ -40,14 +40,18 @@ func (e InvalidInputError) Error() string {
 
 func RegisterInputValidator(k int, v string) error {
 	var ok bool
-	var err error
 
 	_, ok = preInputRegexStr[k]
 	if ok {
 		return fmt.Errorf("input checker with key '%d' already registered", k)
 	}
-	preInputRegexStr[k], err = regexp.Compile(v)
-	return err
+	re, err := regexp.Compile(v)
+	if err != nil {
+		// an expression that does not compile is not registered
+		return err
+	}
+	preInputRegexStr[k] = re
+	return nil
 }
 
 // CheckInput validates the given byte string as client input.
